@@ -92,10 +92,13 @@ WIN_FNS = ("lag", "lead", "first", "last", "rank", "rank_dense", "row_number")
 
 
 class Env:
-    __slots__ = ("cols", "row", "rows", "win")
+    __slots__ = ("cols", "row", "rows", "win", "params")
 
-    def __init__(self, cols, row=None, rows=None, win=None):
-        self.cols, self.row, self.rows, self.win = cols, row, rows, win
+    def __init__(self, cols, row=None, rows=None, win=None, params=None):
+        self.cols, self.row, self.rows, self.win, self.params = cols, row, rows, win, params
+
+
+FUNCS = {}      # user functions of the program being interpreted: name -> def
 
 
 def agg(fn, vals, nrows):
@@ -149,6 +152,16 @@ def ev(e, env):
     if k == "in":
         v, lo, hi = ev(e[1], env), ev(e[2], env), ev(e[3], env)
         return and3(cmp3(">=", v, lo), cmp3("<=", v, hi))
+    if k == "param":
+        return env.params[e[1]]
+    if k == "call":
+        f = FUNCS[e[1]]
+        vals = {}
+        for pn, a in zip(f["params"], e[2]):
+            vals[pn] = ev(a, env)
+        for n, d in f.get("named", []):
+            vals[n] = ev((e[3] or {})[n], env) if n in (e[3] or {}) else ev(d, env)
+        return ev(f["body"], Env(env.cols, env.row, env.rows, env.win, vals))
     if k == "agg":
         if env.win is not None:
             return ev_win_agg(e, env)
@@ -460,6 +473,9 @@ class Interp:
 
     def run(self, prog):
         self.lets = {}
+        FUNCS.clear()
+        for f in prog.get("funcs", []):
+            FUNCS[f["name"]] = f
         for name, pipe in prog.get("lets", []):
             self.lets[name] = self.pipeline(pipe)
         return self.pipeline(prog["main"])
